@@ -247,9 +247,67 @@ func oracleC20(x *Exec) []Finding {
 	once := string(x.Output)
 	twice := x.Real.Sanitize(once)
 	if twice != once {
-		return []Finding{{"C20", "not-idempotent", fmt.Sprintf("Sanitize(%q) = %q but sanitising that again gives %q", x.Input, once, twice)}}
+		return []Finding{{"C20", c20Key(x, once, twice), fmt.Sprintf("Sanitize(%q) = %q but sanitising that again gives %q", x.Input, once, twice)}}
 	}
 	return nil
+}
+
+// c20Key classifies a failure of idempotence (the known-findings file lists one narrow class): "rel-target-order" when the
+// two passes differ ONLY in the order of the rel and target attributes of <a> tags of a policy that admits target on a but
+// no rel (the first pass appends rel then target, the second finds target in place and appends rel behind it: both orders
+// are pinned by the library's own tests); anything else is "not-idempotent".
+func c20Key(x *Exec, once, twice string) string {
+	a, b := Tokens([]byte(once)), Tokens([]byte(twice))
+	if len(a) != len(b) {
+		return "not-idempotent"
+	}
+	orderOnly := false
+	for i := range a {
+		if a[i].String() == b[i].String() {
+			continue
+		}
+		if a[i].T != b[i].T || a[i].N != b[i].N || a[i].D != b[i].D || len(a[i].A) != len(b[i].A) || a[i].N != "a" {
+			return "not-idempotent"
+		}
+		// same attributes, and the only ones that moved are rel and target
+		ra, rb := []Attr{}, []Attr{}
+		for _, at := range a[i].A {
+			if at.K != "rel" && at.K != "target" {
+				ra = append(ra, at)
+			}
+		}
+		for _, at := range b[i].A {
+			if at.K != "rel" && at.K != "target" {
+				rb = append(rb, at)
+			}
+		}
+		if fmt.Sprint(ra) != fmt.Sprint(rb) {
+			return "not-idempotent"
+		}
+		ma, mb := map[string]string{}, map[string]string{}
+		for _, at := range a[i].A {
+			ma[at.K+"\x00"+at.V] = ""
+		}
+		for _, at := range b[i].A {
+			mb[at.K+"\x00"+at.V] = ""
+		}
+		if len(ma) != len(mb) {
+			return "not-idempotent"
+		}
+		for k := range ma {
+			if _, ok := mb[k]; !ok {
+				return "not-idempotent"
+			}
+		}
+		if x.Model.ruleAccepts("a", "rel", "nofollow") || len(x.Model.AttrRuleIDs("a", "rel")) > 0 || len(x.Model.AttrRuleIDs("a", "target")) == 0 {
+			return "not-idempotent"
+		}
+		orderOnly = true
+	}
+	if orderOnly {
+		return "rel-target-order"
+	}
+	return "not-idempotent"
 }
 
 func init() {
